@@ -292,12 +292,13 @@ def append (s : St) (x : Nat) : St :=
   | .val c => { s0 with cs := captureNow s0, cur := .val (c ++ [x]) }
   | .absent => s0
 
-/-- `remove(x)`: the event fires first, then `list.remove` (ValueError leaves the list alone,
-    but committed_state has already been written) -/
+/-- `remove(x)`: the decorator fires the remove event only `if value in self`, then `list.remove`
+    (ValueError for an absent value, nothing recorded) -/
 def remove (s : St) (x : Nat) : St :=
-  let s0 := materialize s
+  let s0 := touch s
   match s0.cur with
-  | .val c => { s0 with cs := captureNow s0, cur := .val (c.erase x) }
+  | .val c =>
+    if c.contains x then { s0 with cs := captureNow s0, cur := .val (c.erase x) } else s0
   | .absent => s0
 
 /-- `obj.items = new` (bulk replace): `_modified_event(dict_, self, old, True)` -/
